@@ -36,6 +36,10 @@ enum Op {
     IntoIter,
     /// advance a long-lived iterator by k items while other accesses happen
     Step(usize),
+    /// Iterator::nth(k) on the long-lived (already advanced) iterator
+    Nth(usize),
+    /// a fresh iterator driven through standard adaptors (skip / step_by / take / last / count)
+    Adaptors(usize, usize),
 }
 
 fn run_script<E: EndianParse, P: ParseAt + PartialEq + Debug>(e: E, class: Class, bytes: &[u8], n: usize, eq: &dyn Fn(usize, &P) -> bool, script: &[Op], tname: &str, obs: &mut Obs) -> Result<(), String> {
@@ -100,6 +104,46 @@ fn run_script<E: EndianParse, P: ParseAt + PartialEq + Debug>(e: E, class: Class
                     return Err(ctx(format!("iteration yielded {} items", k)));
                 }
                 obs.count("full_iterations", 1);
+            }
+            Op::Nth(k) => {
+                let got = long_iter.nth(k);
+                let want_idx = long_pos.saturating_add(k);
+                match got {
+                    Some(v) => {
+                        if want_idx >= n || !eq(want_idx, &v) {
+                            return Err(ctx(format!("nth({}) on an iterator that had yielded {} items returned {:?}, expected item #{}", k, long_pos, v, want_idx)));
+                        }
+                        long_pos = want_idx + 1;
+                    }
+                    None => {
+                        if want_idx < n {
+                            return Err(ctx(format!("nth({}) on an iterator that had yielded {} items returned None, expected item #{}", k, long_pos, want_idx)));
+                        }
+                        long_pos = n;
+                    }
+                }
+            }
+            Op::Adaptors(skip, step) => {
+                let step = step.max(1);
+                let mut k = 0usize;
+                let mut idx = skip;
+                for v in t().iter().skip(skip).step_by(step) {
+                    if idx >= n || !eq(idx, &v) {
+                        return Err(ctx(format!("iter().skip({}).step_by({}) item #{} = {:?} is not entry {}", skip, step, k, v, idx)));
+                    }
+                    idx += step;
+                    k += 1;
+                    if k > n + 1 {
+                        return Err(ctx(format!("iter().skip({}).step_by({}) yielded more than {} items", skip, step, n + 1)));
+                    }
+                }
+                let want = if skip >= n { 0 } else { (n - skip + step - 1) / step };
+                if k != want {
+                    return Err(ctx(format!("iter().skip({}).step_by({}) yielded {} items, expected {}", skip, step, k, want)));
+                }
+                if t().iter().count() != n || t().iter().last().is_some() != (n > 0) {
+                    return Err(ctx("iter().count()/last() disagree with len()".to_string()));
+                }
             }
             Op::Step(kk) => {
                 for _ in 0..kk {
@@ -204,7 +248,9 @@ fn oracle(case: &[u8], obs: &mut Obs) -> Result<(), String> {
     let nops = 3 + c.below(14) as usize;
     let mut script = vec![Op::Len, Op::IsEmpty];
     for _ in 0..nops {
-        let op = match c.below(10) {
+        let op = match c.below(12) {
+            10 => Op::Nth(c.below(4) as usize),
+            11 => Op::Adaptors(c.below(n as u64 + 2) as usize, 1 + c.below(4) as usize),
             0 => Op::Len,
             1 => Op::IsEmpty,
             2 => Op::Iter,
@@ -218,6 +264,7 @@ fn oracle(case: &[u8], obs: &mut Obs) -> Result<(), String> {
                 4 => (1usize << 63) / es * 2,
                 5 => (usize::MAX / es + 1).wrapping_add(c.below(n as u64 + 1) as usize),
                 6 => usize::MAX - c.below(es as u64 * 2) as usize,
+                7 if c.bool() => ((1 + c.below(5) as usize) << 32) | c.below(n as u64 + 1) as usize,
                 _ => c.u64() as usize,
             }),
             6 => Op::Get(n),
